@@ -175,7 +175,7 @@ Proof.
         -- destruct Ha as [Hq Ho]. split; [cbn [app]; rewrite Hq; reflexivity|exact Ho].
         -- destruct Ha as ((d & Hq & Hq') & Ho & Hn). discriminate Hn.
         -- destruct Ha as (Hq & Hq' & Ho & Hc). repeat split; try assumption. cbn [app]. rewrite Hq. reflexivity.
-    + exists []. split; [reflexivity|]. rewrite Ei. split; reflexivity.
+    + exists []. split; [reflexivity|]. rewrite Ei, fact_insert_arg. split; reflexivity.
 Qed.
 
 Lemma process_goaways_some ctl : forall recv recv',
@@ -316,7 +316,7 @@ Proof.
     + cbn [s_inq]. rewrite ?Hq, !app_length. cbn [length]. lia.
   - (* no more requests *)
     destruct Ha as ((dropped & Hq & Hq') & Hong & Hnil). subst rej ong' q'.
-    rewrite fact_accept_none.
+    rewrite fact_accept_none, fact_accept_none_unguarded. cbn [andb].
     set (s1 := {| s_last := last'; s_sent := s_sent s; s_recv := recv'; s_ongoing := drain (s_ongoing s) (s_chan s);
                   s_chan := []; s_inq := dropped; s_ctl := []; s_err := None; s_dead := false |}).
     destruct (do_shutdown_shape s1 0) as (wr & sent' & Eds & Hwr). rewrite Eds.
@@ -648,6 +648,7 @@ Proof.
   destruct (accept_loop _ _ _ _ _) as [[[[rej a] q'] last'] ong'].
   destruct a; cbn [fst snd s_dead]; try discriminate.
   destruct accept_none_shutdown as [n|]; cbn [fst snd s_dead]; [|discriminate].
+  destruct (accept_none_only_if_unsent && _); cbn [fst snd s_dead]; [discriminate|].
   match goal with |- context [do_shutdown ?s1 n] => destruct (do_shutdown_shape s1 n) as (wr & sent' & -> & _) end.
   cbn [fst snd s_dead]. discriminate.
 Qed.
@@ -722,7 +723,7 @@ Proof.
   { left. exists e. reflexivity. }
   rewrite Hq. cbn [accept_loop].
   destruct (if pending_needs_recv_closing then _ else _).
-  - right. right. rewrite fact_accept_none.
+  - right. right. rewrite fact_accept_none, fact_accept_none_unguarded. cbn [andb].
     match goal with |- context [do_shutdown ?s1 0] => destruct (do_shutdown_shape s1 0) as (wr & sent' & -> & Hwr) end.
     cbn [fst app]. exists wr. split; [reflexivity|exact Hwr].
   - right. left. reflexivity.
